@@ -250,7 +250,7 @@ func buildVariant(label string, sp segSpec) (*variant, error) {
 // selfCheckVariant makes sure the harness' independent notion of the segment
 // identifier agrees with the library's (a harness assumption, not the property).
 func selfCheckVariant(v *variant) {
-	if hexUp(v.PS.ID()) != v.Ref.ID || hexUp(v.PS.FullID()) != hexUp(refHash(v.Spec, true)) {
+	if hexUp(v.PS.ID()) != v.Ref.ID {
 		fmt.Fprintf(os.Stderr, "store: harness id computation disagrees with pkg/segment for %+v\n", v.Spec)
 		os.Exit(2)
 	}
